@@ -1,0 +1,20 @@
+//go:build verif
+
+// Contracts for package exported (comment-only; read by /verif's tibcvc).
+// Interface-method contracts: what the packet layer may assume of a light client's Verify* methods.
+// The three relations are uninterpreted here; what they mean for each client type is what C08 proves
+// about the implementations (07-tendermint, 08-bsc, 09-eth).
+package exported
+
+//@ spec VerifiedCommit(cs: obj, S: store, client: str, now: Int, rev: u64, height: u64, proof: bytes, src: str, dst: str, seq: u64, value: bytes): bool
+//@ spec VerifiedAck(cs: obj, S: store, client: str, now: Int, rev: u64, height: u64, proof: bytes, src: str, dst: str, seq: u64, value: bytes): bool
+//@ spec VerifiedClean(cs: obj, S: store, client: str, now: Int, rev: u64, height: u64, proof: bytes, src: str, dst: str, seq: u64): bool
+
+//@ iface ClientState.VerifyPacketCommitment(ctx, store, cdc, height, proof, sourceChain, destChain, sequence, commitmentBytes) (err)
+//@   ensures rel: err == nil <==> VerifiedCommit(self, tibc, clientOf(store), now(), height.GetRevisionNumber(), height.GetRevisionHeight(), proof, sourceChain, destChain, sequence, commitmentBytes)
+//@
+//@ iface ClientState.VerifyPacketAcknowledgement(ctx, store, cdc, height, proof, sourceChain, destChain, sequence, acknowledgement) (err)
+//@   ensures rel: err == nil <==> VerifiedAck(self, tibc, clientOf(store), now(), height.GetRevisionNumber(), height.GetRevisionHeight(), proof, sourceChain, destChain, sequence, acknowledgement)
+//@
+//@ iface ClientState.VerifyPacketCleanCommitment(ctx, store, cdc, height, proof, sourceChain, destChain, sequence) (err)
+//@   ensures rel: err == nil <==> VerifiedClean(self, tibc, clientOf(store), now(), height.GetRevisionNumber(), height.GetRevisionHeight(), proof, sourceChain, destChain, sequence)
